@@ -351,6 +351,10 @@ func (g *Generator) writeUnwrapImports(gf *protogen.GeneratedFile) {
 	gf.P(`"google.golang.org/protobuf/encoding/protojson"`)
 	gf.P(")")
 	gf.P()
+	// protojson is only called for message-typed elements; keep the import valid when every
+	// unwrapped collection in the file holds scalars.
+	gf.P("var _ = protojson.Marshal")
+	gf.P()
 }
 
 func (g *Generator) generateUnwrapMarshalJSON(gf *protogen.GeneratedFile, containing *UnwrapContainingMessage) {
